@@ -435,6 +435,17 @@ def run(ctx):
 
     # (E) direct oracle
     base = load_base(ctx, v)
+    # the base corpus must contain an image of every abstract type that has an unmarshal hook in the current source
+    try:
+        abs_types = gen_vm.abstract_types_with_unmarshal(tree)
+        have = set(lab.split(":")[1] for lab, _ in base if lab.startswith("abs:"))
+        missing = [n for n, fn, unsafe in abs_types if n not in have]
+        if missing:
+            broken.append("base corpus has no image of abstract type(s) %s (harness/C10/baseimages.janet)" % missing)
+            ctx.broken.append(broken[-1])
+    except ExtractError as e:
+        abs_types = []
+        broken.append("translator (abstract types): %s" % e)
     cases = gen_inputs(ctx, ig, base, ops, lb, quick, pegrows)
     wit = sorted(witness_images(ig, lb, ops).items())
     for name, b in wit:
@@ -590,6 +601,7 @@ def run(ctx):
         "crash_signatures": {k: v[3] for k, v in by_sig.items()}, "fiber_model_correspondence": mstats, "peg_model_correspondence": pstats,
         "peg_bad_rows": [pegrows.name_of.get(o, o) for o in peg_bad] if pegrows is not None else None,
         "resource_exits_not_counted": resource_exits,
+        "abstract_types_with_unmarshal": [a[0] for a in abs_types],
         "verify_correspondence_cases": len(vlines), "verify_correspondence_diffs": len(vdiffs), "verify_return_codes": vcodes,
         "image_checks_present": image_checks, "bad_table_rows": [ops.name_of.get(o, o) for o in bad_rows],
     }
